@@ -56,7 +56,7 @@ func (e *env) runPointTable(ts TableSpec, idx int) {
 			} else {
 				c.Outcome("point:agree-some-visible")
 			}
-			if n++; (idx*31+n)%20011 == 0 {
+			if n++; e.sample && n == 41 {
 				c.Sample(map[string]any{"case": cs.String(), "visible": visibleString(es[lo:hi]), "iterator_calls": e.trans})
 			}
 		}
